@@ -95,7 +95,7 @@ def run(ctx, rep):
     variants = [v['name'] for v in prog.adt(L.MB)['variants']]
     rep.check(sorted(variants) == sorted(SPEC_SUFFIX), 'R2', 'variants', wdw, 'ModificationBehavior has the five spec behaviours',
               'ModificationBehavior variants %s differ from the spec behaviours' % variants)
-    if winfo.get('push_calls') != 1 or winfo.get('odd'):
+    if winfo.get('suffix_pushes') != 1 or winfo.get('odd'):
         rep.unproven('R2', 'writer/shape', wdw, 'file-name construction not recognised: %s' % {k: v for k, v in winfo.items() if k != 'push_call'})
     if rinfo.get('insert_calls') != 1 or rinfo.get('odd') or rinfo.get('error'):
         rep.unproven('R2', 'reader/shape', '%s:%d' % (hd.file, hd.line), 'behaviour match not recognised: %s' % {k: v for k, v in rinfo.items() if k != 'insert'})
@@ -111,14 +111,15 @@ def run(ctx, rep):
               'unknown extensions are not ignored: %s' % (rs.get('*'),))
     extra = [k for k in rs if k not in (None, '*') and ('.' + k) not in SPEC_SUFFIX.values()]
     rep.check(not extra, 'R2', 'reader/extra', '%s:%d' % (hd.file, hd.line), 'reader accepts no further extensions', 'reader accepts undefined extensions %s' % extra)
-    # the joined file name is name.clone() + push(suffix)
-    if winfo.get('push_call') is not None:
-        pc = winfo['push_call']
-        nv = strip(sl.operand(wd, pc.args[0]))
-        coll, proj = L.loop_element(nv)
-        ok = coll is not None and L.self_field(wd, coll) == 'entries' and proj == ('0', '1')
-        rep.check(ok, 'R2', 'writer/file-name', pc.where(), 'file name = variable name + suffix',
-                  'suffix is appended to %s, not to the variable name' % vstr(nv)[:80])
+    # the joined file name is <variable name> followed by <suffix>, nothing else
+    pc = winfo.get('push_call')
+    rep.check(winfo.get('name_parts') == ['NAME', 'SUFFIX'], 'R2', 'writer/file-name', pc.where() if pc else wdw, 'file name = variable name + suffix',
+              'the env file name is built as %s, expected [NAME, SUFFIX]' % winfo.get('name_parts'))
+    if pc is not None:
+        recv = strip(sl.operand(wd, pc.args[0]))
+        joined = [strip(sl.operand(wd, c.args[1])) for c in wd.calls if c.name in L.JOIN and wd.in_loop(c.bb)]
+        rep.check(recv in joined, 'R2', 'writer/file-name-used', pc.where(), 'the constructed name is the one joined onto the scope directory',
+                  'the file created is not named by the constructed <name><suffix> string')
     # ---- R3 ------------------------------------------------------------------------------------
     root = L.param_pred(wd, 1)
     rm = [c for c in wd.calls if c.is_('std::fs::remove_dir_all') and root(strip(sl.operand(wd, c.args[0])))]
